@@ -2,39 +2,10 @@
    and returns like over any inert command, and the function scanner (allow_recursive = false)
    finds the end of a function whose body contains no function definition. *)
 Require Import DS.Base DS.FlowTables DS.FlowTablesWf DS.FlowScan DS.Flow DS.FlowTree DS.FlowScanProof
-  DS.FlowLemmas DS.FlowFn DS.FlowFnTree.
+  DS.FlowLemmas DS.FlowFn DS.FlowFnTree DS.FlowFnDom.
 Require Import DSG.GenFlowNames DSG.GenFnNames.
 Open Scope nat_scope.
 
-(* ---- what C05 needs of the tables in addition to [tables_wf] (computed) ------------------------ *)
-Definition free_name (f : str) : bool :=
-  forallb (fun T => inert T f) [gen_if_tables; gen_while_tables; gen_for_tables; gen_function_tables] &&
-  match classify_fn f with FKBase KOther => true | _ => false end &&
-  negb (str_in f prim_names).
-
-Definition fn_close_ok (T : tables) (c : str) : bool :=
-  negb (str_in c (sblocks T)) && negb (str_in c (middles T)) && str_in c (ends T).
-Definition fkind_eqb (a b : fkind) : bool :=
-  match a, b with
-  | FKBase x, FKBase y => kind_eqb x y
-  | FKFunction, FKFunction | FKEndFunction, FKEndFunction | FKReturn, FKReturn => true
-  | _, _ => false
-  end.
-Definition fn_tables_ok : bool :=
-  let Tf := gen_function_tables in
-  forallb (fun k => forallb (inert (table_of k)) n_return) all_ckinds &&
-  forallb (fun k => forallb (other_open Tf) (openers k) && forallb (other_close Tf) (closers k)) all_ckinds &&
-  forallb (inert Tf) (n_elseif ++ n_else ++ prim_names ++ n_return) &&
-  forallb (fn_close_ok Tf) fn_closers &&
-  negb (match starts Tf with [] => true | _ => false end) &&
-  negb (match ends Tf with [] => true | _ => false end) &&
-  negb gen_function_allow_recursive &&
-  forallb (fun c => fkind_eqb (classify_fn c) FKFunction) n_function &&
-  forallb (fun c => fkind_eqb (classify_fn c) FKEndFunction) n_endfunction &&
-  forallb (fun c => fkind_eqb (classify_fn c) FKReturn) n_return &&
-  forallb (fun c => match classify_fn c with FKBase _ => true | _ => false end)
-          (n_if ++ n_elseif ++ n_else ++ n_endif ++ n_while ++ n_endwhile ++ n_for ++ n_endfor ++
-           [gen_end_name] ++ prim_names).
 Lemma fn_tables_wf : fn_tables_ok = true.
 Proof. vm_compute; reflexivity. Qed.
 
